@@ -122,9 +122,14 @@ def classify(fn, lp):
             v = re.fullmatch(r"(\w+) > \d+", up(strip(x["cond"]))).group(1)
             if any(y.k == "binary" and y["op"] == "+=" and up(strip(y["l"])) == v and not cond_ancestors(y)[:-1] for y in own):
                 return "B", "counter `%s` incremented every iteration, loop breaks above a constant" % v
-    # tiling
-    if re.search(r"if \w+ >= [\w\.]+ \{.*break", t) and re.search(r"\w+ = (std::cmp::)?max\(\w+,[\w\.]+\)", t):
-        return "C", "zoom tiling loop: cursor = max(add_end, start) advances or the live record closes (progress argument in DESIGN.md C13-T2; clauses pinned by C07-S1)"
+    # tiling: exit `if X >= E { .. break }`; X assigned once per iteration from an expression over `min(_, E)` (add_end)
+    m = re.search(r"if (\w+) >= ([\w\.]+) \{.*break", t)
+    if m:
+        X, E = m.group(1), m.group(2)
+        asg = [x for x in own if x.k == "assign" and up(strip(x["l"])) == X]
+        mins = [up(x["pat"]) for x in own if x.k == "let" and x.get("init") is not None and re.fullmatch(r"(std::cmp::|cmp::)?min\(\w+,%s\)|\w+\.min\(%s\)" % (re.escape(E), re.escape(E)), up(strip(x["init"])))]
+        if len(asg) == 1 and mins and any(re.search(r"\b%s\b" % re.escape(mn), up(asg[0]["r"])) for mn in mins):
+            return "C", "zoom tiling loop: the cursor `%s` moves to (at least) `%s` = min(record end, %s) each iteration, or the live record closes; exits at %s >= %s (progress argument in DESIGN.md C13-T2)" % (X, mins[0], E, X, E)
     # chunker
     if re.search(r"if chunk_start >= file_size \{break\}", t.replace(";", "")) and ".read_line(" in t:
         return "C", "chunker: chunk_start moves to the end of a line read after it; exits at file_size"
